@@ -83,6 +83,9 @@ impl<T: El> Interp<T> {
     if let Some(o) = self.exec_vec2(op, t) {
       return o;
     }
+    if let Some(o) = self.exec_serde(op, t) {
+      return o;
+    }
     self.exec_iter(op, t)
   }
 
